@@ -443,6 +443,35 @@ class Cmp:
                     got = f["scoped_name"] if f else None
                     if got != sp.get(role):
                         self.bad("seq-property-accessor:" + role, name=sp["qname"], got=got, expected=sp.get(role))
+            for mp in c.get("mapprops", []):
+                e = next((e for e in db.elements.values() if e["scoped_name"] == mp["qname"]), None)
+                self.fact()
+                nacc = sum(1 for k in ("has", "get", "set", "clear") if k in mp)
+                what = "accessors=%d%s" % (nacc, ",keys" if "getkey" in mp else "")
+                if e is None:
+                    self.bad("map-property-missing:" + what, name=mp["qname"])
+                    continue
+                self.res.features.add("map_property:" + what)
+                self.want_comment(mp.get("doc"), "element:" + mp["qname"], e["comment"], "map-property")
+                if mp.get("doc") is None:
+                    self.prop_getters["element:" + mp["qname"]] = "function:" + mp["get"]
+                self.fact()
+                if not e["is_mapping"]:
+                    self.bad("map-property-not-mapping", name=mp["qname"])
+                for role, has, fld in (("has", "has_has_function", "has_function"), ("get", "has_getter", "getter"),
+                                       ("set", "has_setter", "setter"), ("clear", "has_del_function", "del_function"),      # the 4th accessor is the key deleter
+                                       ("getkey", "has_getkey_function", "getkey_function")):
+                    self.fact()
+                    f = db.functions.get(e[fld]) if e[has] and e[fld] else None
+                    got = f["scoped_name"] if f else None
+                    if got != mp.get(role):
+                        self.bad("map-property-accessor:" + role, name=mp["qname"], got=got, expected=mp.get(role))
+                if "num_keys" in mp:
+                    self.fact()
+                    f = db.functions.get(e["length_function"]) if e["length_function"] else None
+                    if (f["scoped_name"] if f else None) != mp["num_keys"]:
+                        self.bad("map-property-accessor:num_keys", name=mp["qname"], got=f and f["scoped_name"],
+                                 expected=mp["num_keys"])
             for sq in c["seqs"]:
                 s = next((s for s in db.make_seqs.values() if s["scoped_name"] == sq["qname"]), None)
                 self.fact()
